@@ -22,14 +22,27 @@ BIG_LENGTHS_QUICK = [16383, 16384, 65536]
 BIG_LENGTHS = BIG_LENGTHS_QUICK
 
 
+# lengths of ONE long component inside a composite value (the other components at base): beyond the
+# 4096-bit accumulator of per.Encoder (512 octets) and on the 16K fragmentation boundary
+MEMBER_BIG_QUICK = [600, 16384]
+MEMBER_BIG_THOROUGH = [511, 512, 513, 600, 16383, 16384, 65536]
+MEMBER_BIG = MEMBER_BIG_QUICK
+
+
 def set_tier(tier):
-    global BIG_LENGTHS
+    global BIG_LENGTHS, MEMBER_BIG
     BIG_LENGTHS = BIG_LENGTHS_THOROUGH if tier == 'thorough' else BIG_LENGTHS_QUICK
+    MEMBER_BIG = MEMBER_BIG_THOROUGH if tier == 'thorough' else MEMBER_BIG_QUICK
 
 
 REALS = [0.0, 1.0, -1.0, 0.1, 0.5, 3.14, -2.5, float(2**100), 1e300, 1e-300,
          5e-324, 1.7976931348623157e308, float('inf'), float('-inf'),
-         1234567.0, 1e10, 16777215.0, 2.0**-149]
+         1234567.0, 1e10, 16777215.0, 2.0**-149,
+         # exponent-octet thresholds of the X.690 binary form (one octet holds -128..127):
+         # mantissa 1 and a full 53-bit mantissa on both sides of each threshold
+         2.0**-129, 2.0**-128, 2.0**127, 2.0**128,
+         (2.0 - 2.0**-52) * 2.0**-77, (2.0 - 2.0**-52) * 2.0**-76,
+         (2.0 - 2.0**-52) * 2.0**179, (2.0 - 2.0**-52) * 2.0**180]
 
 OIDS = ['1.2', '0.0', '0.39', '1.0', '1.39', '2.0', '2.39', '2.40', '2.47', '2.48',
         '2.999', '2.999.3', '1.2.127', '1.2.128', '1.2.16383', '1.2.16384',
@@ -258,6 +271,42 @@ def product_bounded(doms, k, cap=48, reduced=3):
 ABSENT = ('<absent>',)
 
 
+def _size_admits(size, n):
+    if size is None:
+        return True
+    lo, hi = size.lo() or 0, size.hi()
+    return (lo <= n and (hi is None or n <= hi)) or (size.ext and n >= 0)
+
+
+def member_big_values(t, env):
+    """Long values (MEMBER_BIG lengths) of a component type that is a string-like leaf or a
+    list of cheap elements, reached through tags and references; [] for anything else."""
+    try:
+        r = resolve(t, env)
+    except (KeyError, RecursionError):
+        return []
+    out = []
+    if isinstance(r, Leaf):
+        for n in MEMBER_BIG:
+            if not _size_admits(r.size, n):
+                continue
+            if r.kind == 'OCTETSTRING':
+                out.append(bytes((i * 37 + 1) & 0xff for i in range(n)))
+            elif r.kind == 'BITSTRING' and not r.named:
+                out.append(_bits(n, 2))
+            elif r.kind in STRING_KINDS:
+                chars = r.alpha if r.alpha is not None else _ALPHA[r.kind]
+                out.append(_mkstr(chars, n, 2 if n % 2 else 0))
+    elif isinstance(r, Of) and _cheap(r.elem, env):
+        d = dom(r.elem, env, False)
+        if d:
+            d = list(d)
+            for n in MEMBER_BIG:
+                if _size_admits(r.size, n) and n <= 20000:
+                    out.append([d[i % len(d)] for i in range(n)])
+    return out
+
+
 def dom(t, env, big=True, k=2, depth=2, cap=48, _stack=()):
     """Value domain of term t. `depth` bounds unrolling of recursive references."""
     if isinstance(t, Ref):
@@ -288,6 +337,18 @@ def dom(t, env, big=True, k=2, depth=2, cap=48, _stack=()):
         out = []
         for combo in product_bounded(doms, k, cap):
             out.append({m.name: v for m, v in zip(mems, combo) if v is not ABSENT})
+        # one long component (see MEMBER_BIG), the others at base; once with every OPTIONAL /
+        # DEFAULT component absent-or-base as in the base value, once with all of them present
+        if all(doms):
+            base = [d[0] for d in doms]
+            present = [next((x for x in d if x is not ABSENT), ABSENT) for d in doms]
+            for i, m in enumerate(mems):
+                for bv in member_big_values(m.t, env):
+                    for rest in (base, present):
+                        combo = list(rest)
+                        combo[i] = bv
+                        out.append({mm.name: v for mm, v in zip(mems, combo) if v is not ABSENT})
+            out = _dedupe(out)
         return out
     if isinstance(t, Cho):
         out = []
@@ -297,6 +358,8 @@ def dom(t, env, big=True, k=2, depth=2, cap=48, _stack=()):
                 continue
             for v in _trim(list(d), 8):
                 out.append((m.name, v))
+            for bv in member_big_values(m.t, env):
+                out.append((m.name, bv))
         return out or None
     if isinstance(t, Of):
         d = dom(t.elem, env, False, k, depth, cap, _stack)
@@ -319,6 +382,8 @@ def dom(t, env, big=True, k=2, depth=2, cap=48, _stack=()):
             if n <= 3:
                 for x in d[1:6]:
                     out.append([x] + [d[0]] * (n - 1))
+                for bv in member_big_values(t.elem, env):
+                    out.append([d[0]] * (n - 1) + [bv])
         return _dedupe(out)
     raise TypeError(t)
 
